@@ -4,7 +4,7 @@ from wiring import Profile
 
 MANIFEST = {
     "level": "proof",
-    "text": 'theorems: a named point receives exactly the registered component of that name or fails/stays untouched, never panics; names are unique; correspondence over name x type x kind products',
+    "text": 'theorems: a named point receives exactly the registered component of that name or fails/stays untouched, never panics; names are unique; correspondence over name x type x kind products, and registration sequences against the real singleton registry (incl. components of distinct zero-size types and struct/first-field pairs that share an address and a name)',
     "design_ref": "DESIGN.md 5 C07, 4.3, Appendix A/D",
     "note": "trusted: Coq kernel + vm_compute; hand-written model (Model/Resolve.v, Factory.v, App.v) tied to the code by exact "
             "comparison of event log, wiring and lookups on generated scenarios; Python generator/Go code generator/wx runtime; "
@@ -23,20 +23,128 @@ REG_HEADER = ("From Coq Require Import List Arith Bool.\nFrom IocVerif Require I
               "Import ListNotations.\nNotation case := rcase.\n")
 
 
+# zero-size types of harness/cmd/c07reg/zero.go: type -> constant Naming() result (None = no Naming method).  Pointers to
+# values of all of them are ONE address; they are different components all the same.
+ZERO_TYPES = {"Za0": "a", "Za1": "a", "Za2": "a", "Zb0": "b", "Zb1": "b", "Zc0": "c", "Ze0": "", "Ze1": "",
+              "Zn0": None, "Zn1": None, "Zn2": None}
+GO_TYPE = {"F": "named"}
+
+
+def custom_name(r):
+    """the name the component announces through Naming(), "" = none (default name applies)"""
+    t = r["type"]
+    if t in ZERO_TYPES:
+        return ZERO_TYPES[t] or ""
+    if t[0] in "NWF":
+        return r["name"]
+    return ""
+
+
+def gen_reg_case(rng):
+    """instances of one registration sequence.  Profiles: `plain` (the sized types only), `zero` (zero-size types mixed
+    in), `zdup` (at least two zero-size types that announce the SAME name, often next to a sized component of that name),
+    `first` (a struct and a pointer to its first embedded field, which inherits the name)"""
+    prof = rng.choice(["plain", "plain", "plain", "zero", "zdup", "zdup", "first"])
+    insts = []
+
+    def add(t, name="", of=None):
+        if t in ZERO_TYPES and any(x["type"] == t for x in insts):
+            return     # two values of one zero-size type are the same component (same type, same address)
+        r = {"inst": len(insts), "type": t, "name": name}
+        if of is not None:
+            r["of"] = of
+        insts.append(r)
+
+    def sized():
+        t = rng.choice(["N0", "N1", "N2", "P0", "P1", "P2"])
+        add(t, rng.choice(["", "a", "b", "c"]) if t.startswith("N") else "")
+
+    if prof == "plain":
+        for _ in range(rng.randint(1, 6)):
+            sized()
+    elif prof == "zero":
+        for _ in range(rng.randint(1, 6)):
+            if rng.random() < 0.6:
+                add(rng.choice(sorted(ZERO_TYPES)))
+            else:
+                sized()
+    elif prof == "zdup":
+        nm = rng.choice(["a", "a", "b", "e"])
+        group = {"a": ["Za0", "Za1", "Za2"], "b": ["Zb0", "Zb1"], "e": ["Ze0", "Ze1"]}[nm]
+        for t in rng.sample(group, rng.randint(2, len(group))):
+            add(t)
+        if nm != "e" and rng.random() < 0.4:
+            add(rng.choice(["N0", "N1", "W0"]), nm)          # a sized component announcing the same name
+        for _ in range(rng.randint(0, 3)):
+            if rng.random() < 0.5:
+                add(rng.choice(sorted(ZERO_TYPES)))
+            else:
+                sized()
+    else:
+        for _ in range(rng.randint(1, 2)):
+            w = len(insts)
+            add(rng.choice(["W0", "W1"]), rng.choice(["", "a", "b", "c"]))
+            add("F", insts[w]["name"], of=w)
+        for _ in range(rng.randint(0, 3)):
+            if rng.random() < 0.4:
+                add(rng.choice(sorted(ZERO_TYPES)))
+            else:
+                sized()
+    if rng.random() < 0.5:
+        # every instance once, in a random order, then some registered again
+        seq = [dict(r) for r in insts]
+        rng.shuffle(seq)
+        seq += [dict(rng.choice(insts)) for _ in range(rng.randint(0, 3))]
+    else:
+        seq = [dict(rng.choice(insts)) for _ in range(rng.randint(1, 8))]
+    return prof, seq
+
+
+def reg_classes(seq):
+    """input classes of one sequence (counted in the evidence)"""
+    firsts = {}
+    for r in seq:
+        firsts.setdefault(r["inst"], r)
+    rs = list(firsts.values())
+    by_name = {}
+    for r in rs:
+        nm = custom_name(r) or "main/" + GO_TYPE.get(r["type"], r["type"])
+        by_name.setdefault(nm, []).append(r)
+    out = set()
+    for nm, g in by_name.items():
+        z = [r for r in g if r["type"] in ZERO_TYPES]
+        if len(z) >= 2:
+            out.add("two_zero_size_types_one_name")
+        if z and len(z) < len(g):
+            out.add("zero_size_and_sized_one_name")
+        if len(g) >= 2 and not z and not any(r["type"] == "F" for r in g):
+            out.add("two_sized_instances_one_name")
+        if any(r["type"] == "F" and any(o["inst"] == r["of"] for o in g) for r in g):
+            out.add("struct_and_first_field_one_name")
+    if sum(1 for r in rs if r["type"] in ZERO_TYPES) >= 2:
+        out.add("two_or_more_zero_size_components")
+    if any(r["type"] == "F" and r["of"] in firsts for r in rs):
+        out.add("struct_and_first_field_both_registered")
+    if len(seq) > len(rs):
+        out.add("same_instance_again")
+    return out
+
+
 def registration_stream(ctx, by_id_out, cov):
     """registration sequences against the real singleton registry (names unique; duplicates rejected)"""
     rng = ctx.rng
-    n = 400 if ctx.quick() else 8000
-    cases = []
-    for cid in range(n):
-        reqs = []
-        ninst = rng.randint(1, 6)
-        for i in range(ninst):
-            t = rng.choice(["N0", "N1", "N2", "P0", "P1", "P2"])
-            name = rng.choice(["", "a", "b", "c"]) if t.startswith("N") else ""
-            reqs.append({"inst": i, "type": t, "name": name})
-        seq = [dict(rng.choice(reqs)) for _ in range(rng.randint(1, 8))]
-        cases.append({"id": cid, "reqs": seq})
+    n = 600 if ctx.quick() else 8000
+    cases, classes, profs = [], {}, {}
+    while len(cases) < n:
+        prof, seq = gen_reg_case(rng)
+        todo = [seq]
+        if prof in ("zdup", "first"):
+            todo.append([dict(r) for r in reversed(seq)])      # the same registrations in the opposite order
+        for sq in todo:
+            cases.append({"id": len(cases), "reqs": sq})
+            profs[prof] = profs.get(prof, 0) + 1
+            for k in reg_classes(sq):
+                classes[k] = classes.get(k, 0) + 1
     binp = vlib.go_build(ctx, "./cmd/c07reg")
     rc, res, raw = vlib.run_json(binp, {"cases": cases})
     if res is None:
@@ -49,10 +157,12 @@ def registration_stream(ctx, by_id_out, cov):
     for c, o in zip(cases, res["outs"]):
         reqs = []
         for r, regname in zip(c["reqs"], o["names"] or []):
-            default = nid("main/" + r["type"])
-            custom = "(Some %d)" % nid(r["name"]) if (r["type"].startswith("N") and r["name"] != "") else "None"
+            dflt = "main/" + GO_TYPE.get(r["type"], r["type"])
+            default = nid(dflt)
+            cn = custom_name(r)
+            custom = "(Some %d)" % nid(cn) if cn != "" else "None"
             # the model's registered name must be the implementation's GetComponentName
-            want = r["name"] if (r["type"].startswith("N") and r["name"] != "") else "main/" + r["type"]
+            want = cn if cn != "" else dflt
             if regname != want:
                 custom = "(Some %d)" % nid("??" + regname)   # forces a mismatch
             reqs.append("(mkReq %d %s %d)" % (r["inst"], custom, default))
@@ -68,8 +178,16 @@ def registration_stream(ctx, by_id_out, cov):
                "%d failing" % len(out["RV"]))
     cov["registration_sequences"] = len(cases)
     cov["registration_nontrivial"] = sum(out["RNT"])
+    outs = {}
+    for o in res["outs"]:
+        for x in o["outs"] or []:
+            outs[x] = outs.get(x, 0) + 1
+    cov.setdefault("input_distribution", {})["registration_sequences"] = {
+        "profiles": profs, "classes": classes, "registrations_by_result": outs}
     cov["registration_failures"] = {"mismatch": out["RM"][:10], "oracle": out["RV"][:10]}
-    ctx.reg_bad = [cases[i] for i in (out["RM"] + out["RV"])[:3]]
+    bad = sorted(set(out["RV"] + out["RM"]), key=lambda i: (i not in out["RV"], len(cases[i]["reqs"]), i))
+    ctx.reg_bad = [dict(cases[i], observation=res["outs"][i],
+                        kind="oracle" if i in out["RV"] else "model disagrees") for i in bad[:3]]
 
 
 def run(ctx):
